@@ -69,7 +69,8 @@ THEOREMS['C14'] = ['FB.C14_fault_surfaces', 'FB.MakeRoomF.makeRoomF_moved', 'FB.
                    'FB.Rollback.rollBack_restores_files']
 THEOREMS['C03'] = ['FB.C03_impl_build', 'FB.C03_impl_buildGo', 'FB.C03_impl_run_frame', 'FB.replayOp_frame', 'FB.C03_run_frame',
                    'FB.C12_preClean_frame', 'FB.C02_rolledBack_files', 'FB.C12_impl_clean_is_preClean',
-                   'FB.MakeRoom.makeRoom_moved', 'FB.MakeRoom.makeRoom_keeps_virtual', 'FB.Rollback.rollBack_restores_files']
+                   'FB.MakeRoom.makeRoom_moved', 'FB.MakeRoom.makeRoom_keeps_virtual', 'FB.Rollback.rollBack_restores_files',
+                   'FB.Commit.commit_frame', 'FB.Commit.commit_keeps_file', 'FB.Commit.commit_exact']
 THEOREMS['C16'] = ['FB.Codec.decode_encode', 'FB.Codec.decodeOps_encodeOps', 'FB.Codec.read_write', 'FB.Codec.replayOp_strip',
                    'FB.Codec.replayOps_strip', 'FB.Codec.isEqual_textRT', 'FB.Codec.textRT_of_wf']
 THEOREMS['C11'] = ['FB.Heap.C11_records_immutable', 'FB.Heap.C11_records_immutable_from_init', 'FB.Heap.C11_served_value', 'FB.Heap.inv_run', 'FB.Heap.inv_step',
@@ -384,6 +385,19 @@ def _c03_after(tier, rep):
     from . import mdcheck
     for q in [x for x in mdcheck.run(tier, rep, salt=3) if x.get('foreign')][:2]:
         rep.violation('makedirs_foreign', {'property': 'C03', 'kind': 'failing-input', 'what': q}, note=json.dumps(q, default=str)[:250])
+    # _commit: on every commit of generated histories and on random states it removes only old outputs the virtual
+    # tree does not know and listed directories (oracle), does what FB.Commit says (tie), and where the hypotheses
+    # of commit_exact hold the tree on disk is the virtual tree afterwards
+    from . import cmcheck
+    cprobs = cmcheck.run(tier, rep, measure())
+    for q in [x for x in cprobs if x.get('oracle')][:2]:
+        rep.violation('commit', {'property': 'C03', 'kind': 'failing-input', 'what': q}, note=json.dumps(q, default=str)[:250])
+    ctie = [x for x in cprobs if not x.get('oracle')]
+    rep.count('correspondence_disagreements_commit', len(ctie))
+    if ctie and not rep.violations:
+        rep.violation('commit_tie', {'property': 'C03', 'kind': 'correspondence-broken',
+                                     'no_longer_checks': 'FB.Commit (commit_frame, commit_keeps_file, commit_exact) describes FileBuilder._commit',
+                                     'what': ctie[0]}, note='%s: %s' % (ctie[0]['what'], json.dumps(ctie[0].get('differ_at') or ctie[0].get('case'))[:160]), no_input=True)
     from . import mrcheck
     probs = mrcheck.run(tier, rep)
     for q in [x for x in probs if x.get('oracle')][:2]:
